@@ -297,7 +297,7 @@ impl Scenario for C06Des {
   fn components(&self) -> (&'static [&'static str], &'static [&'static str]) {
     (&["subject.rs (all five subject types)", "subscriber.rs", "rc.rs"], &[])
   }
-  fn generate(&self, rng: &mut Rng, _tier: Tier) -> Value {
+  fn generate(&self, rng: &mut Rng, tier: Tier) -> Value {
     let flavour = match rng.below(8) {
       0..=2 => Flavour::Local,
       3 | 4 => Flavour::Threads,
@@ -305,7 +305,8 @@ impl Scenario for C06Des {
       6 => Flavour::MutErr,
       _ => Flavour::MutItemErr,
     };
-    let len = rng.range(3, 14);
+    let deep = deepen(rng, tier);
+    let len = rng.range(3, 14 * deep);
     let mut steps = Vec::new();
     let mut subs = 0usize;
     for i in 0..len {
@@ -585,6 +586,8 @@ pub enum TOp {
   Error,
   /// read len() / is_empty() (no expectation on the racing value; must return)
   Size,
+  /// `Subscription::unsubscribe` on this thread's handle of the subject itself
+  UnsubSubject,
 }
 
 #[derive(Clone, Debug, Serialize, Deserialize)]
@@ -625,11 +628,12 @@ impl Scenario for C06Threads {
     let leavers = rng.below(2);
     let mut threads = Vec::new();
     let mut terminal_used = false;
+    let mut shut_used = false;
     for _ in 0..nt {
       let len = rng.range(1, 4);
       let mut ops = Vec::new();
       for i in 0..len {
-        let op = match rng.weighted(&[8, 3, 2, 2, 1, 1, 2]) {
+        let op = match rng.weighted(&[8, 3, 2, 2, 1, 1, 2, 1]) {
           0 => TOp::Next,
           1 => TOp::Subscribe,
           2 => TOp::UnsubOwn,
@@ -643,6 +647,10 @@ impl Scenario for C06Threads {
             TOp::Error
           }
           6 => TOp::Size,
+          7 if !shut_used && i + 1 == len => {
+            shut_used = true;
+            TOp::UnsubSubject
+          }
           _ => TOp::Next,
         };
         ops.push(op);
@@ -750,6 +758,13 @@ impl Scenario for C06Threads {
               // a consistent pair when nothing races; under races only "returns" is required
               let _ = (n, e);
             }
+            TOp::UnsubSubject => {
+              let s = subject.take().unwrap();
+              let invoke = sh.stamp();
+              s.unsubscribe();
+              let ret = sh.stamp();
+              oplog.lock().unwrap().push(OpRec { tid: t, op: "shut".into(), item: 0, sub: 0, invoke, ret });
+            }
             TOp::Complete | TOp::Error => {
               let s = subject.take().unwrap();
               let invoke = sh.stamp();
@@ -816,6 +831,8 @@ fn judge_threads(case: &TCase, rep: &TReport, ops: &[OpRec], logs: &[Arc<ProbeLo
     return Some(Violation { rule: "c06.panic".into(), site, detail: format!("thread {} panicked: {}", t, m) });
   }
   let terminal = ops.iter().find(|o| o.op == "terminal");
+  // unsubscribe() of the subject itself: ends deliveries like a terminal, without a notification
+  let shut = ops.iter().find(|o| o.op == "shut");
   for (k, l) in logs.iter().enumerate() {
     let recs = l.records();
     let evs: Vec<Ev> = recs.iter().map(|r| r.ev.clone()).collect();
@@ -845,8 +862,8 @@ fn judge_threads(case: &TCase, rep: &TReport, ops: &[OpRec], logs: &[Arc<ProbeLo
       let joined_after = !pre && sub_op.map_or(true, |s| s.invoke > n.ret);
       let left_before = unsub_op.map_or(false, |u| u.ret < n.invoke);
       let left_after_or_never = unsub_op.map_or(true, |u| u.invoke > n.ret);
-      let term_before = terminal.map_or(false, |t| t.ret < n.invoke);
-      let term_after_or_never = terminal.map_or(true, |t| t.invoke > n.ret);
+      let term_before = terminal.map_or(false, |t| t.ret < n.invoke) || shut.map_or(false, |t| t.ret < n.invoke);
+      let term_after_or_never = terminal.map_or(true, |t| t.invoke > n.ret) && shut.map_or(true, |t| t.invoke > n.ret);
       if joined_before && left_after_or_never && term_after_or_never && !delivered {
         return Some(Violation {
           rule: "c06.missed".into(),
@@ -868,11 +885,19 @@ fn judge_threads(case: &TCase, rep: &TReport, ops: &[OpRec], logs: &[Arc<ProbeLo
         return Some(Violation { rule: "c06.after-unsubscribe".into(), site, detail: format!("subscriber {} got {:?} after its unsubscribe() returned", k, r.ev) });
       }
     }
+    // nothing at all after the subject's own unsubscribe() returned
+    if let Some(u) = shut {
+      if let Some(r) = recs.iter().find(|r| r.seq > u.ret) {
+        return Some(Violation { rule: "c06.after-unsubscribe".into(), site, detail: format!("subscriber {} got {:?} after unsubscribe() of the subject returned", k, r.ev) });
+      }
+    }
     // terminal: stable subscribers get it exactly once when one was issued
+    // (unless the subject was unsubscribed before or while it was issued)
     if let Some(t) = terminal {
       if k < case.stable {
         let n_term = evs.iter().filter(|e| e.is_terminal()).count();
-        if n_term != 1 {
+        let shut_interferes = shut.map_or(false, |u| u.invoke < t.ret);
+        if n_term > 1 || (n_term != 1 && !shut_interferes) {
           return Some(Violation { rule: "c06.terminal-count".into(), site, detail: format!("stable subscriber {} got {} terminals (terminal op {}..{})", k, n_term, t.invoke, t.ret) });
         }
       }
